@@ -1,3 +1,4 @@
 import GqlProofs.Props.C03
 import GqlProofs.Props.C18
 import GqlProofs.Props.C10
+import GqlProofs.Props.C02
